@@ -28,10 +28,30 @@ typedef struct {
 
 static int ptg_norm(int k, int n) { int r = k % n; return r < 0 ? r + n : r; }
 
+/* Placement.  Default: rank_of(k) = k mod nodes.  With PTG_DIST=tab:r0,r1,.. (C05): the owner of element k is
+ * table[(k mod nt) mod table length] mod nodes — any distribution (2D block-cyclic, tabular, hash of the index) is given
+ * as its table over the nt tiles, so that the owner is a function of the TILE and every tile has one owner. */
+static int *ptg_dist_tab; static int ptg_dist_len;
+static void ptg_dist_init(void)
+{
+    const char *e = getenv("PTG_DIST");
+    if (!e || strncmp(e, "tab:", 4)) return;
+    const char *p = e + 4; char *q;
+    ptg_dist_tab = calloc(strlen(e) + 1, sizeof(int));
+    for (;;) { long x = strtol(p, &q, 10); if (q == p) break; ptg_dist_tab[ptg_dist_len++] = (int)x; p = q; if (*p == ',') p++; }
+    if (ptg_dist_len == 0) { free(ptg_dist_tab); ptg_dist_tab = NULL; }
+}
+static uint32_t ptg_owner(int tile_or_k, int nt, int nodes)
+{
+    if (ptg_dist_tab) return (uint32_t)ptg_norm(ptg_dist_tab[ptg_norm(tile_or_k, nt) % ptg_dist_len], nodes);
+    return (uint32_t)ptg_norm(tile_or_k, nodes);
+}
+static int ptg_nt_of(parsec_data_collection_t *d);
+
 static uint32_t ptg_rank_of(parsec_data_collection_t *d, ...)
 {
     va_list ap; va_start(ap, d); int k = va_arg(ap, int); va_end(ap);
-    return (uint32_t)ptg_norm(k, (int)d->nodes);
+    return ptg_owner(k, ptg_nt_of(d), (int)d->nodes);
 }
 static int32_t ptg_vpid_of(parsec_data_collection_t *d, ...) { (void)d; return 0; }
 static parsec_data_key_t ptg_data_key(parsec_data_collection_t *d, ...)
@@ -46,7 +66,11 @@ static parsec_data_t *ptg_data_of(parsec_data_collection_t *d, ...)
     int t = ptg_norm(k, m->nt);
     return parsec_data_create(&m->data[t], d, t, &m->ptr[t * PTG_TILE], PTG_TILE * sizeof(int32_t), 0);
 }
-static uint32_t ptg_rank_of_key(parsec_data_collection_t *d, parsec_data_key_t key) { return (uint32_t)(key % d->nodes); }
+static int ptg_nt_of(parsec_data_collection_t *d) { return ((ptg_dc_t *)d)->nt; }
+static uint32_t ptg_rank_of_key(parsec_data_collection_t *d, parsec_data_key_t key)
+{
+    return ptg_dist_tab ? ptg_owner((int)key, ptg_nt_of(d), (int)d->nodes) : (uint32_t)(key % d->nodes);
+}
 static int32_t ptg_vpid_of_key(parsec_data_collection_t *d, parsec_data_key_t key) { (void)d; (void)key; return 0; }
 static parsec_data_t *ptg_data_of_key(parsec_data_collection_t *d, parsec_data_key_t key) { return ptg_data_of(d, (int)key); }
 
@@ -62,7 +86,8 @@ static ptg_dc_t *ptg_dc_new(int rank, int world, int nt)
     m->nt = nt;
     m->data = calloc(nt, sizeof(parsec_data_t *));
     m->ptr = calloc((size_t)nt * PTG_TILE, sizeof(int32_t));
-    for (int t = 0; t < nt; t++) m->ptr[t * PTG_TILE] = 1000 + t;      /* initial contents: tile t holds 1000+t */
+    /* initial contents: tile t holds 1000+t; element j of a tile always holds element 0 plus j (checked by ptg_flow) */
+    for (int t = 0; t < nt; t++) for (int j = 0; j < PTG_TILE; j++) m->ptr[t * PTG_TILE + j] = 1000 + t + j;
     return m;
 }
 static void ptg_dc_free(ptg_dc_t *m)
@@ -185,6 +210,8 @@ void ptg_flow(int th, int flow, int mode, void *ptr)
     s->mode[flow] = mode; s->ptr[flow] = (int32_t *)ptr;
     if (ptr != NULL && (mode & PTG_NEW)) ((int32_t *)ptr)[0] = 0;      /* a copy allocated for this task (NEW): the body initialises it */
     s->in[flow] = (ptr != NULL && (mode & PTG_READ)) ? ((int32_t *)ptr)[0] : PTG_NONE;
+    if (ptr != NULL && (mode & PTG_READ))       /* a copy that is not whole (element j != element 0 + j) is seen as a value nobody writes */
+        for (int j = 1; j < PTG_TILE; j++) if (((int32_t *)ptr)[j] != ((int32_t *)ptr)[0] + j) { s->in[flow] = -1000000 - j; break; }
     if (flow + 1 > s->nfl) s->nfl = flow + 1;
 }
 
@@ -228,7 +255,7 @@ int ptg_task_end(int th, int cls, int nloc, ...)
             out[f] = h;
         }
     }
-    for (int f = 0; f < s->nfl; f++) if (out[f] != PTG_NONE) s->ptr[f][0] = (int32_t)out[f];
+    for (int f = 0; f < s->nfl; f++) if (out[f] != PTG_NONE) for (int j = 0; j < PTG_TILE; j++) s->ptr[f][j] = (int32_t)out[f] + j;
     /* the end stamp is taken after all effects of the body */
     ptg_ev_t *e = ptg_new_ev('E', th, cls, nloc, ap);
     va_end(ap);
@@ -429,6 +456,7 @@ int ptg_rt_main(int argc, char **argv, int nglobals, ptg_make_fn mk, ptg_initial
     ptg_world = 1; ptg_rank = 0;
 #endif
     t_mpi = ptg_now();
+    ptg_dist_init();
     ptg_out = stdout;
     if (outfile) {
         char name[1024];
@@ -462,6 +490,17 @@ int ptg_rt_main(int argc, char **argv, int nglobals, ptg_make_fn mk, ptg_initial
     ptg_dump_events(0);
     fprintf(ptg_out, "end => complete\n");
     ptg_dump_batches();
+    /* C05 (PTG_GATHER=1): remember the local tiles; they are gathered on rank 0 after parsec_fini (the communication
+     * thread is then gone: MPI is initialised with MPI_THREAD_SERIALIZED) */
+    int gather_nt = dc->nt;
+    int32_t *mine = NULL;
+    if (getenv("PTG_GATHER")) {
+        mine = malloc(sizeof(int32_t) * (size_t)dc->nt);
+        for (int t = 0; t < dc->nt; t++) {
+            mine[t] = dc->ptr[t * PTG_TILE];
+            for (int j = 1; j < PTG_TILE; j++) if (dc->ptr[t * PTG_TILE + j] != dc->ptr[t * PTG_TILE] + j) { mine[t] = -1000000 - j; break; }
+        }
+    }
     /* final contents of the collection (C02) */
     fprintf(ptg_out, "#final");        /* the tiles whose content is not the initial one, `tile:value` */
     for (int t = 0; t < dc->nt; t++) if (dc->ptr[t * PTG_TILE] != 1000 + t) fprintf(ptg_out, " %d:%d", t, dc->ptr[t * PTG_TILE]);
@@ -474,6 +513,25 @@ int ptg_rt_main(int argc, char **argv, int nglobals, ptg_make_fn mk, ptg_initial
     parsec_taskpool_free(tp);
     ptg_dc_free(dc);
     parsec_fini(&ctx);
+    if (mine) {       /* the final contents of the collection on rank 0, every tile taken from its owner */
+        int32_t *all = NULL;
+#if defined(PARSEC_HAVE_MPI)
+        if (ptg_world > 1) {
+            if (ptg_rank == 0) all = malloc(sizeof(int32_t) * (size_t)gather_nt * (size_t)ptg_world);
+            MPI_Gather(mine, gather_nt, MPI_INT32_T, all, gather_nt, MPI_INT32_T, 0, MPI_COMM_WORLD);
+        }
+#endif
+        if (ptg_rank == 0) {
+            fprintf(ptg_out, "final =>");
+            for (int t = 0; t < gather_nt; t++) {
+                int o = (int)ptg_owner(t, gather_nt, ptg_world);
+                fprintf(ptg_out, " %d", all ? all[(size_t)o * (size_t)gather_nt + t] : mine[t]);
+            }
+            fprintf(ptg_out, "\n");
+            fflush(ptg_out);
+        }
+        free(mine); free(all);
+    }
 #if defined(PARSEC_HAVE_MPI)
     MPI_Finalize();
 #endif
